@@ -1,10 +1,11 @@
 SPECIFICATION FairSpec
 CONSTANTS
-  CapMax = 12
+  CapMax = 24
   Profiles <- ProfSmall
   MaxSteps = 1
   PairChecked = TRUE
   IslandClears = FALSE
+  DualChecked = TRUE
 INVARIANT TypeOK
 INVARIANT Apart
 INVARIANT NoDerefNull
